@@ -105,6 +105,21 @@ pub const DEVIATIONS: &[Dev] = &[
         fs.push(i);
         fs.push(Field::new("None", Ty::Prim("bool")));
     }),
+    // identifiers that are not keywords themselves but become one once a backend normalises them
+    ("field-near-keyword-idents", |f, _| {
+        let fs = fields(f, "Person");
+        for n in ["in_", "for_", "class_", "_from", "__import", "Class", "None_", "is__", "_"] {
+            if n != "_" {
+                fs.push(Field::new(n, Ty::Prim("bool")));
+            }
+        }
+    }),
+    ("variant-field-near-keyword-idents", |f, _| {
+        let fs = rect_fields(f);
+        for n in ["as_", "_while", "Def", "lambda_", "self_", "Self_"] {
+            fs.push(Field::new(n, Ty::Prim("bool")));
+        }
+    }),
     ("variant-field-keyword-idents", |f, _| {
         let fs = rect_fields(f);
         fs.push(Field::new("case", Ty::Prim("bool")));
